@@ -423,14 +423,14 @@ def maybe_moved(rnd, scn, p=0.1):
     return scn
 
 
-def add_lifecycles(rnd, scn, p_derived=0.08, p_entry=0.12):
+def add_lifecycles(rnd, scn, p_derived=0.08, p_entry=0.12, p_used=0.06, p_prior=0.0):
     """Object life cycles every Engine-A workload shares (drawn from their own sub-stream, so the
     scenario a property's generator produced is left as it is): the Device handed to the solver is
     derived from the meshed one (copy / deep copy / pickled copy / identity transform + re-mesh), and
     the run is started through the convenience entry point tdgl.solve() instead of TDGLSolver()."""
     if isinstance(scn, dict) and isinstance(scn.get("base"), dict):
         # groups (C11): the life cycle belongs to the physics scenario every member executes
-        add_lifecycles(rnd, scn["base"], p_derived, p_entry)
+        add_lifecycles(rnd, scn["base"], p_derived, p_entry, p_used, p_prior)
         return scn
     if not isinstance(scn, dict) or scn.get("physics") != "real" or "device" not in scn:
         return scn
@@ -438,4 +438,11 @@ def add_lifecycles(rnd, scn, p_derived=0.08, p_entry=0.12):
         scn["device_derived"] = rnd.choice(["copy", "copy+orig-moved", "deepcopy", "pickle", "rotate0", "scale1"])
     if rnd.random() < p_entry and not scn.get("options_late") and not scn.get("solve_twice"):
         scn["entry"] = "function"
+    if rnd.random() < p_used and not scn.get("device_history"):
+        # the Device object was already simulated on before (and before it is moved / saved / copied)
+        fu = scn["options"].get("field_units", "mT")
+        scn["device_used_before"] = {"steps": rnd.choice([2, 3]), "B": r3(0.2 * FIELD_FACTOR[fu]), "terminal_psi": rnd.choice(["zero", "none"])}
+    if rnd.random() < p_prior and not scn.get("options_late") and not scn.get("reload_phase") and not scn.get("seed_phase"):
+        # the SolverOptions object was used before, untouched since, on a variant of the device
+        scn["options_prior_use"] = {"variant": rnd.choice(["no-terminals", "no-terminals", "same", "no-holes"]), "steps": rnd.choice([2, 3])}
     return scn
